@@ -49,8 +49,47 @@ func makeNamedType(name string, underlying types.Type) *types.Named {
 	return types.NewNamed(obj, underlying, nil)
 }
 
+// A reflect.Value is structure{rtype, value, addr, ro}: addr is the *value cell
+// the value lives in when it is addressable (reached through a pointer, a
+// slice element or a field of an addressable struct), ro is set when it was
+// reached through an unexported field.
 func makeReflectValue(t types.Type, v value) value {
-	return structure{rtype{t}, v}
+	return structure{rtype{t}, v, (*value)(nil), false}
+}
+
+func makeReflectValueAt(t types.Type, addr *value, ro bool) value {
+	var v value
+	if addr != nil {
+		v = *addr
+	}
+	return structure{rtype{t}, v, addr, ro}
+}
+
+func rV2Addr(v value) *value {
+	s := v.(structure)
+	if len(s) < 3 {
+		return nil
+	}
+	a, _ := s[2].(*value)
+	return a
+}
+
+func rV2RO(v value) bool {
+	s := v.(structure)
+	if len(s) < 4 {
+		return false
+	}
+	b, _ := s[3].(bool)
+	return b
+}
+
+func ext۰reflect۰Value۰Addr(fr *frame, args []value) value {
+	// Signature: func (v reflect.Value) reflect.Value
+	a := rV2Addr(args[0])
+	if a == nil {
+		panic("reflect.Value.Addr of unaddressable value")
+	}
+	return structure{rtype{types.NewPointer(rV2T(args[0]).t)}, a, (*value)(nil), rV2RO(args[0])}
 }
 
 // Given a reflect.Value, returns its rtype.
@@ -362,9 +401,14 @@ func ext۰reflect۰Value۰Index(fr *frame, args []value) value {
 	t := rV2T(args[0]).t.Underlying()
 	switch v := rV2V(args[0]).(type) {
 	case array:
+		if a := rV2Addr(args[0]); a != nil {
+			if arr, ok := (*a).(array); ok {
+				return makeReflectValueAt(t.(*types.Array).Elem(), &arr[i], rV2RO(args[0]))
+			}
+		}
 		return makeReflectValue(t.(*types.Array).Elem(), v[i])
 	case []value:
-		return makeReflectValue(t.(*types.Slice).Elem(), v[i])
+		return makeReflectValueAt(t.(*types.Slice).Elem(), &v[i], rV2RO(args[0]))
 	default:
 		panic(fmt.Sprintf("reflect.(Value).Index(%T)", v))
 	}
@@ -377,14 +421,12 @@ func ext۰reflect۰Value۰Bool(fr *frame, args []value) value {
 
 func ext۰reflect۰Value۰CanAddr(fr *frame, args []value) value {
 	// Signature: func (v reflect.Value) bool
-	// Always false for our representation.
-	return false
+	return rV2Addr(args[0]) != nil
 }
 
 func ext۰reflect۰Value۰CanInterface(fr *frame, args []value) value {
 	// Signature: func (v reflect.Value) bool
-	// Always true for our representation.
-	return true
+	return !rV2RO(args[0])
 }
 
 func ext۰reflect۰Value۰Elem(fr *frame, args []value) value {
@@ -393,11 +435,7 @@ func ext۰reflect۰Value۰Elem(fr *frame, args []value) value {
 	case iface:
 		return makeReflectValue(x.t, x.v)
 	case *value:
-		var v value
-		if x != nil {
-			v = *x
-		}
-		return makeReflectValue(rV2T(args[0]).t.Underlying().(*types.Pointer).Elem(), v)
+		return makeReflectValueAt(rV2T(args[0]).t.Underlying().(*types.Pointer).Elem(), x, rV2RO(args[0]))
 	default:
 		panic(fmt.Sprintf("reflect.(Value).Elem(%T)", x))
 	}
@@ -407,7 +445,14 @@ func ext۰reflect۰Value۰Field(fr *frame, args []value) value {
 	// Signature: func (v reflect.Value, i int) reflect.Value
 	v := args[0]
 	i := args[1].(int)
-	return makeReflectValue(rV2T(v).t.Underlying().(*types.Struct).Field(i).Type(), rV2V(v).(structure)[i])
+	f := rV2T(v).t.Underlying().(*types.Struct).Field(i)
+	ro := rV2RO(v) || !f.Exported()
+	if a := rV2Addr(v); a != nil {
+		if st, ok := (*a).(structure); ok {
+			return makeReflectValueAt(f.Type(), &st[i], ro)
+		}
+	}
+	return structure{rtype{f.Type()}, rV2V(v).(structure)[i], (*value)(nil), ro}
 }
 
 func ext۰reflect۰Value۰Float(fr *frame, args []value) value {
@@ -534,6 +579,8 @@ func initReflect(i *interpreter) {
 		rV.SetUnderlying(types.NewStruct([]*types.Var{
 			types.NewField(token.NoPos, r.Pkg, "t", tEface, false), // a lie
 			types.NewField(token.NoPos, r.Pkg, "v", tEface, false),
+			types.NewField(token.NoPos, r.Pkg, "a", tEface, false),  // *value cell when addressable
+			types.NewField(token.NoPos, r.Pkg, "ro", tEface, false), // reached through an unexported field
 		}, nil))
 	}
 
